@@ -120,8 +120,15 @@ impl ObjectStore for CachedObjectStore {
     }
 
     async fn get_opts(&self, location: &Path, options: GetOptions) -> ObjectStoreResult<GetResult> {
-        // For range requests or conditional gets, bypass cache
-        if options.range.is_some() || options.if_match.is_some() || options.if_none_match.is_some()
+        // For range requests, conditional gets (ETag or date preconditions), versioned and
+        // metadata-only requests, bypass cache: only the backing store can decide them
+        if options.range.is_some()
+            || options.if_match.is_some()
+            || options.if_none_match.is_some()
+            || options.if_modified_since.is_some()
+            || options.if_unmodified_since.is_some()
+            || options.version.is_some()
+            || options.head
         {
             return self.inner.get_opts(location, options).await;
         }
